@@ -97,6 +97,8 @@ def agent_ids_of(case):
     groups = case["groups"]
     names = "ab"
     per = [[f"{names[g]}_{i}" for i in range(n)] for g, n in enumerate(groups)]
+    if case.get("desc"):  # ids of a group in DESCENDING order: the learner's agent order is not the lexicographic one
+        per = [p[::-1] for p in per]
     if case.get("order") == "interleaved" and len(per) == 2:
         out = []
         for i in range(max(len(p) for p in per)):
@@ -735,7 +737,7 @@ def ippo_strategy(draw, tier):
     groups = draw(st.sampled_from(GROUPS))
     nro = draw(st.integers(3, 6 if tier == "quick" else 10))
     return {"algo": "IPPO", "obs": draw(st.sampled_from(obs)), "act": draw(st.sampled_from(act)), "groups": groups,
-            "order": draw(st.sampled_from(["grouped", "interleaved"])), "wseed": draw(st.integers(0, 9999)),
+            "order": draw(st.sampled_from(["grouped", "interleaved"])), "desc": draw(st.booleans()), "wseed": draw(st.integers(0, 9999)),
             "rollouts": [draw(rollout_strategy(sum(groups), tier)) for _ in range(nro)]}
 
 
